@@ -284,6 +284,11 @@ def r11_3(cx):
     wv = [x for x in offs.arg(1).walk() if x.kind == 'call' and x.op.endswith('to_le_bytes')]
     okw = len(wv) == 1 and wv[0].args[0].strip().kind == 'proj' and not wv[0].args[0].has_call('saturating_add') or \
         (len(wv) == 1 and all(not is_call(alt, 'saturating_add') for alt in phi_alts(wv[0].args[0])))
+    if not okw and len(wv) == 1:
+        # the accumulator's payload read through: a sum among its values is the one made *after* this write (it comes
+        # round the loop from the previous iteration), never one made before the write in the same iteration
+        sums = [alt.strip() for alt in phi_alts(wv[0].args[0]) if is_call(alt, 'saturating_add')]
+        okw = bool(sums) and all(a.pos is not None and fn.pos_dominates(offs.pos, a.pos) and a.pos.bb != offs.bb for a in sums)
     cx.check(okw, 'offsets:sum-before-add', fn, offs.loc(), 'the value written is the running sum before the current length is added',
              fail_detail='the offset written already includes the current value')
     sa = [cs for cs in fn.calls('saturating_add')]
